@@ -61,3 +61,26 @@ def axis_spellings(ax, rank):
 BIG_SHAPES_2D = [[16, 17], [17, 32], [33, 18], [3, 100], [12, 40], [40, 45]]
 BIG_SHAPES_ND = [[5, 7, 9], [2, 3, 4, 13], [9, 1, 31], [2, 2, 2, 2, 17]]
 BIG_SHAPES_1D = [[257], [300], [1100]]
+
+
+GENERIC_TYPES = ["str", "list", "pair", "f32", "u64", "i16", "i64", "f64"]
+
+
+def retype(lines, rng, ops, share=0.35, types=GENERIC_TYPES, max_label=30000):
+    """gives a share of the case lines whose operation is generic in the element type (and whose head names no type) one
+    of the other element types the harness instantiates: strings, heap-backed compound elements (a list, a pair holding
+    a string), other number widths.  The model side ignores the type (it computes on labels)."""
+    import re
+    out = []
+    for l in lines:
+        head, _, rest = l.partition(" ")
+        if head in ops and rng.random() < share:
+            nums = [abs(int(x)) for x in re.findall(r"-?\d+", " ".join(t.split(":", 1)[1] for t in rest.split(" ") if t.startswith("a") and ":" in t))]
+            neg = "-" in "".join(t.split(":", 1)[1] for t in rest.split(" ") if t.startswith("a") and ":" in t)
+            ty = rng.choice(types)
+            if (ty in ("u64",) and neg) or (ty == "i16" and nums and max(nums) > max_label):
+                ty = "str"
+            out.append(f"{head}@{ty} {rest}" if rest else f"{head}@{ty}")
+        else:
+            out.append(l)
+    return out
